@@ -181,6 +181,31 @@ def stepLine (st : St) (ws : List String) (_impl : String) : St × Ans :=
                   else
                     (st, { m := s!"{name}<keygen:status=200:channel={hexOfBytes respChan}:key=?:master={k.master}:contract={k.contract}:sign={k.signature}:perms={k.permissions}:path={k.targetPath}:hash={k.target}:expires~{k.expires}|puback:{mid}" })
       | _, _, _, _, _, _ => (st, bad)
+  | ["ckey", pk, chan, access, expires, newName] =>
+      -- direct call of keygen.Service.CreateKey (the path of the HTTP keygen page): the minting
+      -- function itself must refuse anything but a valid, unexpired master key of the contract
+      match some (st.keyOf pk), bytesOfHex chan, access.toNat?, expires.toInt? with
+      | some parent, some chan, some access, some expires =>
+          let env := st.env st.b.banned
+          match createKey env parent chan (UInt8.ofNat access) expires 0 with
+          | .err e => (st, { m := "ckey:status=" ++ (if e == "unauthorized" then "401" else if e == "not-found" then "404" else "400") })
+          | .panic _ => (st, { m := "panic" })
+          | .ok k =>
+              let fs : List (String × String) :=
+                (_impl.splitOn ":").filterMap (fun kv => match kv.splitOn "=" with | [a, b] => some (a, b) | _ => none)
+              let get (n : String) : String := (fs.lookup n).getD ""
+              let keyStr := (bytesOfHex (get "key")).getD []
+              let okKey := match env.decrypt keyStr with
+                | some k' =>
+                    k'.master == k.master && k'.contract == k.contract && k'.signature == k.signature &&
+                    k'.permissions == k.permissions && k'.targetPath == k.targetPath && k'.target == k.target &&
+                    k'.expires == k.expires
+                | none => false
+              if okKey && get "status" == "200" then
+                ({ st with keys := (newName, keyStr) :: st.keys }, { m := _impl })
+              else
+                (st, { m := s!"ckey:status=200:key=?:master={k.master}:contract={k.contract}:sign={k.signature}:perms={k.permissions}:path={k.targetPath}:hash={k.target}:expires={k.expires}" })
+      | _, _, _, _ => (st, bad)
   | ["saltspread", _, k, _] =>
       -- keys minted from a valid master carry fresh random salts; from anything else nothing is minted
       let env := st.env st.b.banned
